@@ -379,10 +379,23 @@ inline void scheduling_programs(const vf::opts &o, vf::report &R, uint64_t progr
             if (cocls::coro_queue::is_active()) bad_active = true;
         }
         // some traffic from ordinary code, then cleanup until everything finished
-        int extra = (int)r.below(4);
+        int extra = (int)r.below(4), unwound = 0;
         for (int k = 0; k < extra; k++) {
-            if (r.chance(1, 2)) { int f = (int)r.below(c5_world::NF); W.log(-1, EV_NORMAL, NA_RESOLVE, f); if (W.P[f]) { (*W.P[f])(-1); W.P[f].reset(); } }
-            else { W.log(-1, EV_NORMAL, NA_PUSH, 0); W.Q.push(-1); }
+            // a third of these actions happen in a DESTRUCTOR that runs while ordinary code is being unwound by an exception (a guard
+            // object resolving / pushing on scope exit): the activation it starts must drain the ready queue exactly like any other
+            bool unwinding = r.chance(1, 3);
+            if (r.chance(1, 2)) {
+                int f = (int)r.below(c5_world::NF); W.log(-1, EV_NORMAL, NA_RESOLVE, f);
+                if (W.P[f]) {
+                    if (!unwinding) (*W.P[f])(-1);
+                    else { try { struct on_exit { cocls::promise<int> &p; ~on_exit() { p(-1); } } g{*W.P[f]}; throw 1; } catch (int) {} unwound++; }
+                    W.P[f].reset();
+                }
+            } else {
+                W.log(-1, EV_NORMAL, NA_PUSH, 0);
+                if (!unwinding) W.Q.push(-1);
+                else { try { struct on_exit { cocls::queue<int> &q; ~on_exit() { q.push(-1); } } g{W.Q}; throw 1; } catch (int) {} unwound++; }
+            }
             if (cocls::coro_queue::is_active()) bad_active = true;
         }
         W.log(-1, EV_NORMAL, NA_STOPPING, 0);
@@ -422,6 +435,7 @@ inline void scheduling_programs(const vf::opts &o, vf::report &R, uint64_t progr
         R.cls("context_switches", M.switches); R.cls("resumed_from_ready_queue", M.queued_resumes); R.cls("direct_transfers", M.transfers);
         R.cls("coroutines", (uint64_t)W.ncoro); if (M.max_queue >= 3) R.cls("programs_with_3plus_queued");
         if (M.nested_drains) R.cls("nested_install_queue_and_call_with_queued_coroutines", M.nested_drains);
+        if (unwound) R.cls("activations_started_by_a_destructor_during_stack_unwinding", (uint64_t)unwound);
         if (R.samples.size() < 3 && W.ncoro >= 4) R.sample(describe());
     }
 }
